@@ -9,9 +9,9 @@ TIERS = {
 }
 
 DIRECTED = {
-    "quick": [("nested_threads_lossmin", 1), ("nested_threads_lossmin", 2), ("batching_weighted_loss", 3), ("single_int_seed", 4), ("single_povmt", 5), ("four_levels", 6)],
+    "quick": [("nested_threads_lossmin", 1), ("nested_threads_lossmin", 2), ("batching_weighted_loss", 3), ("single_int_seed", 4), ("single_povmt", 5), ("four_levels", 6), ("parent_tolerance", 7), ("parent_tolerance", 8)],
     "thorough": [("nested_threads_lossmin", i) for i in range(1, 13)] + [("batching_weighted_loss", 20 + i) for i in range(8)]
-    + [("single_int_seed", 40 + i) for i in range(8)] + [("single_povmt", 60 + i) for i in range(4)] + [("four_levels", 80 + i) for i in range(8)],
+    + [("single_int_seed", 40 + i) for i in range(8)] + [("single_povmt", 60 + i) for i in range(4)] + [("four_levels", 80 + i) for i in range(8)] + [("parent_tolerance", 100 + i) for i in range(8)],
 }
 
 # real-joblib calibration of the SimParallel model (thorough tier; see selftest/joblib_calibration.py)
@@ -49,7 +49,7 @@ ASSUMPTIONS = [
     "scipy.linalg.kron shim supplied by the harness; single-threaded BLAS; exact float comparison",
 ]
 
-FAULT_KINDS = ["batch_split", "worker_reuse", "proc_reorder", "thread_preempt", "clock_jump_fwd", "clock_jump_back", "global_rng_pollution", "crash_at_file_write", "torn_write", "stale_output_dir", "pollution_inside_run"]
+FAULT_KINDS = ["batch_split", "worker_reuse", "proc_reorder", "thread_preempt", "clock_jump_fwd", "clock_jump_back", "global_rng_pollution", "crash_at_file_write", "torn_write", "stale_output_dir", "pollution_inside_run", "worker_started_elsewhere"]
 
 PROBES = [
     "two_tasks_in_flight_in_threads", "switch_on_hot_line_of_mutator_function", "switch_inside_loss_or_algo_configuration_or_optimize", "switch_inside_composite_system_table_code",
